@@ -189,6 +189,26 @@ def tlc(module, cfgfile, workdir, env=None, workers=1, timeout=1800, extra=None,
     return r.returncode, r.stdout
 
 
+def tlc_tuples(out):
+    """Yield the <<"TAG", ...>> tuples TLC printed. TLC's pretty printer wraps long values over several
+    lines, so physical lines are joined until the closing >> of the tuple is seen."""
+    cur = None
+    for line in out.splitlines():
+        st = line.strip()
+        if cur is None:
+            if st.startswith('<<"') and re.match(r'<<"(BAD|DRIFT|UNMODELLED|TRACE-DONE|ST)"', st):
+                cur = st
+            else:
+                continue
+        else:
+            cur += " " + st
+        if cur.endswith(">>") and cur.count("<<") == cur.count(">>"):
+            yield cur
+            cur = None
+    if cur is not None:
+        raise Inconclusive("unterminated tuple in TLC output: %s" % cur[:200])
+
+
 TUPLE_RE = re.compile(r'^<<"(BAD|DRIFT|UNMODELLED|TRACE-DONE)", (.*)>>$')
 
 
@@ -225,10 +245,10 @@ def validate_trace(prefix, conform=True, timeout=1800, chunk=40000):
             p.kill()
             raise Inconclusive("TLC trace validation timeout")
         done = False
-        for line in out.splitlines():
+        for line in tlc_tuples(out):
             m = TUPLE_RE.match(line.strip())
             if not m:
-                continue
+                raise Inconclusive("unparsable TLC tuple: %s" % line[:300])
             kind, rest = m.group(1), m.group(2)
             if kind == "TRACE-DONE":
                 done = True
